@@ -16,7 +16,7 @@ theorem core_relist {ex : Option Nat} {s : State} (c : Core ex s) (t : State) (h
   have obj : ∀ x, t.obj x = s.obj x := same.obj
   have lv : ∀ x, Live t x ↔ Live s x := fun x => by simp [Live, obj, same.indexes]
   have rst : ∀ x, t.rstate x = s.rstate x := same.rstate
-  refine ⟨hr, ?_, ?_, ?_, ?_, ?_, ?_, ?_, ?_, ?_, ?_, ?_, ?_⟩
+  refine ⟨hr, ?_, ?_, ?_, ?_, ?_, ?_, ?_, ?_, ?_, ?_, ?_, ?_, ?_⟩
   · intro a' x hx
     rw [hl] at hx; rw [obj, lv]
     split at hx
@@ -40,6 +40,7 @@ theorem core_relist {ex : Option Nat} {s : State} (c : Core ex s) (t : State) (h
   · intro i x hx; rw [same.pidx] at hx; rw [obj, same.indexes]; exact c.pidx i x hx
   · intro a' x hx; rw [same.vpnIps] at hx; rw [obj, lv]; exact c.vpn a' x hx
   · intro x hx; rw [same.next] at hx; rw [same.objs]; exact c.fresh x hx
+  · intro a' x hx hr; rw [same.vpnIps] at hx; rw [obj] at hr ⊢; rw [same.pidx]; exact c.vpnReady a' x hx hr
 
 /-! ### `unlockedMakePrimary` -/
 
